@@ -49,8 +49,12 @@ def vec_random_op(r, n, cap_hint):
     if c < 0.92:
         return r.choice(["at:%d" % r.randrange(0, n + 2), "idx:%d" % r.randrange(0, max(1, n)), "front", "back", "riter",
                          "setidx:%d:%d" % (r.randrange(0, max(1, n)), v)])
-    if c < 0.97:
+    if c < 0.95:
         return r.choice(["cpy:0", "cpy:%d" % r.randrange(0, n + 9), "asg", "selfasg", "swap", "sel:0", "sel:1"])
+    if c < 0.985:     # value arguments that are references to the vector's own elements, and assign(n, x)
+        i = r.randrange(0, max(1, n))
+        return r.choice(["insa:%d:%d:%d" % (r.randrange(0, n + 1), r.choice([0, 1, 1, 2, 3, 5]), i), "insa:%d:1:%d" % (n, i),
+                         "rsza:%d:%d" % (r.randrange(0, n + 8), i), "pba:%d" % i, "asgn:%d:%d" % (r.randrange(0, 7), v)])
     return r.choice(["new:0", "new:%d" % r.randrange(1, 12), "newn:%d:%d" % (r.randrange(0, 9), v),
                      "newr:" + lst([r.randrange(1, 60) for _ in range(r.randrange(0, 6))])])
 
@@ -62,8 +66,12 @@ def track_len(n, op):
         return n + 1
     if t[0] == "pop" or t[0] == "er":
         return max(0, n - 1)
-    if t[0] == "insn":
+    if t[0] in ("insn", "insa"):
         return n + int(t[2])
+    if t[0] == "pba":
+        return n + 1
+    if t[0] in ("rsza", "asgn"):
+        return int(t[1])
     if t[0] == "insr":
         return n + len([x for x in t[2][1:].split(",") if x])
     if t[0] == "err":
@@ -93,8 +101,10 @@ def gen_vec(ctx, n_cases):
             room = cap - size
             k = max(0, r.choice([room, room, room - 1, room + 1, size - pos, size - pos - 1, size - pos + 1, 1]))
             kind = r.random()
-            if kind < 0.5:
+            if kind < 0.3:
                 ops.append("insn:%d:%d:%d" % (pos, k, 50 + k))
+            elif kind < 0.5:
+                ops.append("insa:%d:%d:%d" % (pos, k, r.randrange(0, size)))
             elif kind < 0.8:
                 ops.append("insr:%d:%s" % (pos, lst([60 + i for i in range(k)])))
             else:
@@ -120,7 +130,7 @@ def gen_vec(ctx, n_cases):
             n += 1
             if r.random() < 0.15:
                 op = r.choice(["ins1:%d:99" % r.randrange(0, n + 1), "insn:%d:1:98" % r.randrange(0, n + 1), "er:%d" % r.randrange(0, n),
-                               "cpy:0", "swap", "pop"])
+                               "cpy:0", "swap", "pop", "pba:%d" % r.randrange(0, n), "insa:%d:1:%d" % (n, r.randrange(0, n))])
                 ops.append(op)
                 n = track_len(n, op) if op not in ("swap",) else n
         out.append(("vi", "-", ops, "vec-growth"))
@@ -326,7 +336,7 @@ def gen_deque(ctx, n_cases):
                     if op not in ("cpy", "selfasg"):
                         n = r.randrange(0, 5)
                 ops.append(op)
-        out.append(("d", "%d,%d" % (bs, bs), ops, "deque-" + style))
+        out.append(("d", "%d,%d" % (bs, r.choice([bs, 1, 2, 3, 4, 7, 10])), ops, "deque-" + style))
     return out
 
 
@@ -379,6 +389,7 @@ def gen_string(ctx, n_cases):
             elif c < 0.90:
                 a = r.randrange(0, max(1, n))
                 op = r.choice(["substr:%d:%d" % (a, r.randrange(0, max(1, n - a + 1))), "cmp", "cmpw:" + word(), "idx:%d" % a, "cstr", "riter",
+                               "substrnpos:%d" % a, "appsubnpos:%d" % r.randrange(0, 4), "erit:0:0",
                                "selfsub:%d:%d" % (a, r.randrange(0, max(1, n - a + 1))), "appsub:%d:%d" % (a, r.randrange(0, max(1, n - a + 1)))])
             else:
                 op = r.choice(["cpy", "asg", "selfasg", "swap", "sel:0", "sel:1", "appo"])
@@ -407,20 +418,8 @@ def run_impl(impl, lines, env=None):
     return res, crashed
 
 
-KNOWN_OPS = {   # op name -> finding key; these ops are emitted by the corpus only, never by the generators
-    "insa": "K-C20-1", "rszgrow": "K-C20-3", "appsubnpos": "K-C20-4", "substrnpos": "K-C20-5", "eritempty": "K-C20-6",
-}
-
-
 def known_class(c, what):
-    """guards of the known-finding classes (the same predicates as the _partial theorems; the harness skips
-    the by-value ops that would fall into a class, e.g. 'rsz' growing a non-empty string)"""
-    for o in c[2]:
-        k = KNOWN_OPS.get(o.split(":")[0])
-        if k and c[0] in ("vi", "vs", "s"):
-            return k
-    if c[0] == "d" and "swap" in c[2] and len(set(c[1].split(","))) > 1:
-        return "K-C20-2"
+    """no known-finding class is left for C20: K-C20-1..6 are repaired (fix: commits) and their op forms are generated"""
     return None
 
 
@@ -507,7 +506,7 @@ def run(ctx):
     ctx.notes["rule"] = "distinct = different (kind, parameters, op sequence); non-trivial = at least 3 ops"
     ctx.assumptions += [
         "size_type(m_size * 1.6 + 0.5), size_type(1.6 * size()) and size_type(m_loadFactor * size()) are modelled by exact rational arithmetic (true for the sizes used: the products are never within rounding distance of an integer from below; load factors driven are dyadic)",
-        "operations are driven inside their documented (assert) preconditions: positions within range, value arguments not aliasing the container (class K-C20-1 apart), ranges not taken from the container itself, minBuckets >= 1",
+        "operations are driven inside their documented (assert) preconditions: positions within range, ranges not taken from the container itself (value arguments MAY alias the container's own elements), minBuckets >= 1",
         "std::copy / std::copy_backward / std::fill behave as specified by the C++ standard (modelled by blit)",
         "memory safety is the model's totality inside bounds plus the ASan/UBSan run of the same sequences in the thorough tier",
     ]
